@@ -296,6 +296,61 @@ theorem beq_iff_symbols (a b : Seq α) (hnd : a.alph.Nodup) (x y : List α)
   · rintro ⟨rfl, rfl, rfl⟩
     exact ⟨rfl, rfl, decode_inj aa hnd ca cb x ha hb⟩
 
+theorem mapE_ok_transfer {β γ : Type} (f g : β → Except Err γ) (xs : List β) (ys : List γ)
+    (h : mapE f xs = .ok ys) (hfg : ∀ x ∈ xs, ∀ y, f x = .ok y → g x = .ok y) : mapE g xs = .ok ys := by
+  induction xs generalizing ys with
+  | nil => simp [mapE] at h; subst h; rfl
+  | cons x xs ih =>
+    obtain ⟨y, ys', hy, hys, rfl⟩ := mapE_cons_inv f x xs ys h
+    exact mapE_cons_ok g x xs y ys' (hfg x (by simp) y hy) (ih ys' hys fun z hz => hfg z (by simp [hz]))
+
+theorem encode_ok_of_mem (alph syms : List α) (hs : ∀ y ∈ syms, y ∈ alph) :
+    ∃ cs, encode alph syms = .ok cs ∧ decode alph (cs.map Int.ofNat) = .ok syms := by
+  induction syms with
+  | nil => exact ⟨[], rfl, rfl⟩
+  | cons y ys ih =>
+    obtain ⟨cs, h1, h2⟩ := ih fun z hz => hs z (by simp [hz])
+    obtain ⟨c, hc⟩ := indexOf?_of_mem (hs y (by simp))
+    exact ⟨c :: cs, mapE_cons_ok _ _ _ _ _ (encode1_ok_iff.mpr hc) h1,
+      mapE_cons_ok _ _ _ _ _ (decode1_ofNat (indexOf?_some hc)) h2⟩
+
+/-- `sequence.symbols = value`: the string becomes `value`; a foreign symbol is refused. -/
+theorem setSymbols_spec (s : Seq α) (syms : List α) :
+    ((∀ y ∈ syms, y ∈ s.alph) → ∃ s', s.setSymbols syms = .ok s' ∧ s'.symbols = .ok syms ∧
+      s'.alph = s.alph ∧ s'.kind = s.kind) ∧
+    ((∃ y ∈ syms, y ∉ s.alph) → s.setSymbols syms = .error .alphabetError) := by
+  constructor
+  · intro hs
+    obtain ⟨cs, h1, h2⟩ := encode_ok_of_mem s.alph syms hs
+    exact ⟨{ s with codes := cs }, by simp [Seq.setSymbols, h1], h2, rfl, rfl⟩
+  · intro h
+    simp [Seq.setSymbols, encode_error_of_not_mem s.alph syms h]
+
+/-- `a.as_type(b)`: if `b`'s alphabet extends `a`'s, `b` afterwards has `a`'s symbol string (and
+keeps its own alphabet); otherwise `AlphabetError`. -/
+theorem asType_spec (a b : Seq α) (x : List α) (ha : a.symbols = .ok x) :
+    (extends_ b.alph a.alph = true → ∃ b', a.asType b = .ok b' ∧ b'.symbols = .ok x ∧ b'.alph = b.alph ∧ b'.kind = b.kind) ∧
+    (extends_ b.alph a.alph = false → a.asType b = .error .alphabetError) := by
+  constructor
+  · intro hext
+    refine ⟨{ b with codes := a.codes }, by simp [Seq.asType, hext], ?_, rfl, rfl⟩
+    obtain ⟨hpre, _⟩ := extends_prefix hext
+    unfold Seq.symbols decode at *
+    refine mapE_ok_transfer _ _ _ _ ha ?_
+    intro c _ y hy
+    obtain ⟨h0, h1, hget⟩ := decode1_ok hy
+    have hlt : c.toNat < a.alph.length := by omega
+    have hb : b.alph[c.toNat]? = some y := by
+      have : (b.alph.take a.alph.length)[c.toNat]? = b.alph[c.toNat]? := by
+        rw [List.getElem?_take]; simp [hlt]
+      rw [← this, ← hpre]; exact hget
+    have hcn : ((c.toNat : Nat) : Int) = c := by omega
+    have := decode1_ofNat hb
+    rw [hcn] at this
+    exact this
+  · intro hext
+    simp [Seq.asType, hext]
+
 end Laws
 
 end BiotiteModel.C03
